@@ -100,6 +100,18 @@ def run_tree_property(pid, prop_file, tier, seed, want, extra=None):
         maxN = 300 if tier == "quick" else 3000
         for tc in T.gen_random(rng, nrand, maxN):
             cases.append(tc)
+        # the automatic block size (constructor default): B = -(hardware threads) in the case text
+        ph = os.path.join(sdir, "hc.cases"); vlib.write_cases(ph, ["hc"])
+        try:
+            hc = int(vlib.run_impl(binary, ph)[0])
+        except Exception:
+            hc = 0
+        if hc > 0:
+            nauto = 0
+            for tc in cases[nexh:]:
+                if rng.below(8) == 0:
+                    tc.B = -hc; nauto += 1
+            rep.coverage["automatic_block_size_cases"] = nauto
         # thin the exhaustive family for the properties where it is not the point
         if "structure" not in want and tier == "quick":
             keep = [c for k, c in enumerate(cases[:nexh]) if k % 7 == 0]
@@ -195,7 +207,7 @@ def run_tree_property(pid, prop_file, tier, seed, want, extra=None):
             except Exception:
                 return False
 
-        vlib.differential(rep, binary, texts, sdir, "tree", canon=canon, oracle=oracle, nontrivial=nontrivial,
+        vlib.differential(rep, binary, texts, sdir, "tree", canon=canon, oracle=oracle, nontrivial=nontrivial, model_cases=[T.model_text(x) for x in texts],
                           clause=lambda c: "tree:d%s:mode%s" % (c.split()[1], c.split()[5]))
         rep.coverage["rule"] = ("occupancy-exhaustive small trees (every non-empty subset of leaves x every block size x both grouping modes) + random structured trees "
                                 "(d=1..4, uniform/clustered/corner/single-leaf/faces/lattice, B in {1,2,3,5,8,n/2,n,n+1,1000,1e7}); non-trivial = height>=3 and >=2 groups at some level; distinct by case text. "
